@@ -3,8 +3,9 @@
     the set of solved pieces, and a ghost flag [pend] used only by the termination measure.
     One constructor per synchronisation-relevant action: try_lock own queue (success / failure),
     pop + unlock, solve, lock the execution state, retire check, lock own queue, length check,
-    lock the other queues in ascending order, balance + retire trailing empty queues + release,
-    release own, release state.  [balanced a f f'] relates the queues before and after a rebalancing (BalanceModel.v). *)
+    lock the other queues in ascending order, balance + retire trailing empty queues, release the
+    gathered queue locks ONE AT A TIME in ascending order (drop of the vector of guards - other
+    workers may take their own queue lock again between two releases), release own, release state.  [balanced a f f'] relates the queues before and after a rebalancing (BalanceModel.v). *)
 From Coq Require Import List Arith Lia Bool Permutation.
 Import ListNotations.
 
@@ -14,7 +15,7 @@ Variable n : nat.
 
 Inductive pcT :=
 | PTry | PHoldOwn | PSolve (w : piece) | PWantState | PChk | PLockOwn | PChkLen
-| PGather (i : nat) | PBalance | PRelOwn | PRelState | PDone.
+| PGather (i : nat) | PBalance | PRelease (j hi : nat) | PRelOwn | PRelState | PDone.
 
 Definition upd {A} (f : nat -> A) (t : nat) (v : A) : nat -> A := fun x => if Nat.eqb x t then v else f x.
 
@@ -30,9 +31,6 @@ Definition flat (a : nat) (f : nat -> list piece) : list piece := concat (map f 
 
 Fixpoint trailing_empty (f : nat -> list piece) (a : nat) : nat :=
   match a with O => O | S a' => match f a' with [] => S (trailing_empty f a') | _ => O end end.
-
-Definition release_all (t : nat) (l : nat -> option nat) : nat -> option nat :=
-  fun i => match l i with Some h => if Nat.eqb h t then None else Some h | None => None end.
 
 Definition set_pc (s : st) t p := {| active := active s; slock := slock s; qlock := qlock s; q := q s; pc := upd (pc s) t p; solved := solved s; pend := pend s |}.
 
@@ -69,8 +67,12 @@ Inductive step (t : nat) : st -> st -> Prop :=
 | s_gather_done s i : pc s t = PGather i -> i <> t -> active s <= i -> step t s (set_pc s t PBalance)
 | s_balance s q' : pc s t = PBalance -> balanced (active s) (q s) q' ->
     step t s {| active := active s - trailing_empty q' (active s); slock := slock s;
-                qlock := release_all t (qlock s); q := q';
-                pc := upd (pc s) t PRelState; solved := solved s; pend := fun _ => true |}
+                qlock := qlock s; q := q';
+                pc := upd (pc s) t (PRelease 0 (active s)); solved := solved s; pend := fun _ => true |}
+| s_release s j hi : pc s t = PRelease j hi -> j < hi -> qlock s j = Some t ->
+    step t s {| active := active s; slock := slock s; qlock := upd (qlock s) j None; q := q s;
+                pc := upd (pc s) t (PRelease (S j) hi); solved := solved s; pend := pend s |}
+| s_release_done s j hi : pc s t = PRelease j hi -> hi <= j -> step t s (set_pc s t PRelState)
 | s_rel_own s : pc s t = PRelOwn ->
     step t s {| active := active s; slock := slock s; qlock := upd (qlock s) t None; q := q s;
                 pc := upd (pc s) t PRelState; solved := solved s; pend := pend s |}
@@ -91,7 +93,7 @@ End Exec.
 
 Arguments PTry {piece}. Arguments PHoldOwn {piece}. Arguments PSolve {piece} w. Arguments PWantState {piece}.
 Arguments PChk {piece}. Arguments PLockOwn {piece}. Arguments PChkLen {piece}. Arguments PGather {piece} i.
-Arguments PBalance {piece}. Arguments PRelOwn {piece}. Arguments PRelState {piece}. Arguments PDone {piece}.
+Arguments PBalance {piece}. Arguments PRelease {piece} j hi. Arguments PRelOwn {piece}. Arguments PRelState {piece}. Arguments PDone {piece}.
 Arguments active {piece} s. Arguments slock {piece} s. Arguments qlock {piece} s. Arguments q {piece} s.
 Arguments pc {piece} s. Arguments solved {piece} s. Arguments pend {piece} s.
 Arguments trailing_empty {piece} f a. Arguments set_pc {piece} s t p.
